@@ -26,6 +26,8 @@ pub struct GenCfg {
     pub with_prints: bool,
     pub with_data: bool,
     pub max_depth: u8,
+    /// allow int 3 and trap-flag set/clear sequences in the main part (C20)
+    pub stepping: bool,
 }
 
 fn marker(c: u8) -> Vec<Item> {
@@ -74,7 +76,7 @@ const CCS: [&str; 22] = [
     "ja", "jnbe", "jae", "jnb", "jb", "jnae", "jbe", "jna", "jc", "je", "jz", "jg", "jnle", "jge", "jnl", "jl", "jnge", "jnc", "jne", "jnz", "jns", "js",
 ];
 
-fn build_body(toks: &[Tok], b: &mut Builder, nprocs_callable: usize, top_level: bool, in_proc: bool, with_prints: bool, max_depth: u8, counters: &[&'static str], special_jump: Option<&str>) -> Vec<Item> {
+fn build_body(toks: &[Tok], b: &mut Builder, nprocs_callable: usize, top_level: bool, in_proc: bool, with_prints: bool, max_depth: u8, counters: &[&'static str], special_jump: Option<&str>, stepping: bool) -> Vec<Item> {
     let mut out: Vec<Item> = Vec::new();
     let mut open: Vec<Open> = Vec::new();
     let mut loops_open = 0usize;
@@ -92,7 +94,7 @@ fn build_body(toks: &[Tok], b: &mut Builder, nprocs_callable: usize, top_level: 
         Open::Skip { label } => out.push(Item::Label(label)),
     };
     for t in toks {
-        match t.kind % 14 {
+        match t.kind % 17 {
             0 | 1 | 2 => out.extend(marker(MARKERS[t.a as usize % MARKERS.len()])),
             3 => {
                 if (open.len() as u8) < max_depth && loops_open < counters.len() {
@@ -151,6 +153,15 @@ fn build_body(toks: &[Tok], b: &mut Builder, nprocs_callable: usize, top_level: 
                     out.push(Item::Ins(Insn::new("hlt", vec![])));
                 }
             }
+            14 if stepping && top_level => out.push(Item::Ins(Insn::new("int", vec![Opd::Imm(3, ImmKind::UB)]))),
+            15 | 16 if stepping && top_level => {
+                // set (15) or clear (16) the trap flag: load a complete, fully defined flag word
+                let base: u16 = 0xF002 | ((t.a as u16 & 0x0F) << 4 & 0x00D0) | (t.b as u16 & 0x05) | ((t.b as u16 & 0x08) << 8);
+                let fw = if t.kind % 17 == 15 { base | 0x0100 } else { base & !0x0100 };
+                out.push(Item::Ins(Insn::new("mov", vec![Opd::R16(R16::AX), Opd::Imm(fw, ImmKind::SW)])));
+                out.push(Item::Ins(Insn::new("push", vec![Opd::R16(R16::AX)])));
+                out.push(Item::Ins(Insn::new("popf", vec![])));
+            }
             13 if special_jump.is_some() && t.a % 3 == 0 => {
                 // jump to the label that precedes a procedure definition: the body runs and its
                 // ret finds no active call
@@ -180,7 +191,7 @@ pub fn build_program(g: &GenCfg) -> Program {
     let has_pre = g.start_pos == 1 && !g.toks_pre.is_empty();
     if has_pre {
         code.push(Item::Label("pre_entry".into()));
-        code.extend(build_body(&g.toks_pre, &mut b, 0, false, false, false, g.max_depth, &[], None));
+        code.extend(build_body(&g.toks_pre, &mut b, 0, false, false, false, g.max_depth, &[], None, false));
         code.push(Item::Ins(Insn::new("jmp", vec![Opd::Name("pre_back".into())])));
     }
     // procedures: p_i may call p_j for j < i; each level uses counters above the callers' ones
@@ -190,7 +201,7 @@ pub fn build_program(g: &GenCfg) -> Program {
             code.push(Item::Label("before_proc".into()));
         }
         // a procedure body must not be empty (proc_contents is one or more)
-        let mut body = build_body(toks, &mut b, i, false, true, false, g.max_depth.min(2), &PROC_COUNTERS[i % PROC_COUNTERS.len()..i % PROC_COUNTERS.len() + 1], None);
+        let mut body = build_body(toks, &mut b, i, false, true, false, g.max_depth.min(2), &PROC_COUNTERS[i % PROC_COUNTERS.len()..i % PROC_COUNTERS.len() + 1], None, false);
         if body.is_empty() {
             body.extend(marker(MARKERS[i % MARKERS.len()]));
         }
@@ -203,7 +214,7 @@ pub fn build_program(g: &GenCfg) -> Program {
         code.push(Item::Ins(Insn::new("jmp", vec![Opd::Name("pre_entry".into())])));
         code.push(Item::Label("pre_back".into()));
     }
-    code.extend(build_body(&g.toks_main, &mut b, np, true, false, g.with_prints, g.max_depth, &MAIN_COUNTERS, if g.label_before_proc && np > 0 { Some("before_proc") } else { None }));
+    code.extend(build_body(&g.toks_main, &mut b, np, true, false, g.with_prints, g.max_depth, &MAIN_COUNTERS, if g.label_before_proc && np > 0 { Some("before_proc") } else { None }, g.stepping));
     if g.trailing_label {
         code.push(Item::Label(b.fresh()));
     }
@@ -240,6 +251,7 @@ pub fn gencfg_s(max_main: usize, max_procs: usize) -> BoxedStrategy<GenCfg> {
             with_prints,
             with_data,
             max_depth,
+            stepping: false,
         })
         .boxed()
 }
